@@ -587,6 +587,18 @@ impl<'a, V: Value + 'static> AccessGuard<'a, V> {
     pub fn value(&self) -> V::SelfType<'_> {
         V::from_bytes(&self.buf[..self.len])
     }
+    /// MODEL ONLY: a guard over the serialisation of `value` (for harness-defined `ReadableTable`s)
+    pub fn verif_from_value<'v>(value: impl Borrow<V::SelfType<'v>>) -> Self {
+        let b = V::as_bytes(value.borrow());
+        Self::new(b.as_ref())
+    }
+}
+
+impl<K: Key + 'static, V: Value + 'static> Range<'static, K, V> {
+    /// MODEL ONLY: an empty range (for harness-defined `ReadableTable`s that do not support scans)
+    pub fn verif_empty() -> Self {
+        Range { data: EMPTY_TABLE, front: 0, back: 0, _p: PhantomData }
+    }
 }
 
 pub struct AccessGuardMut<'a, V: Value + 'static>(PhantomData<(&'a (), V)>);
